@@ -117,6 +117,14 @@ VM_REGS_RESTORED
 __CPROVER_ensures(janet_vm.root_fiber == __CPROVER_old(janet_vm.root_fiber) || g_child_ran)
 ;
 
+/* ghost snapshot of the entry state (status, resume value) used by the call-site obligations on run_vm: only in the
+ * ENFORCED version of the contract; where the contract REPLACES a call (units fib.continue, fib.continue_signal) the
+ * ghosts are not constrained */
+#ifdef FIB_ENFORCE_NO_CHECK
+#define NO_CHECK_GHOSTS __CPROVER_requires(g_st0 == (int) FIB_ST(fiber->flags) && g_in0 == JBITS(in) && g_tup_calls == 0)
+#else
+#define NO_CHECK_GHOSTS
+#endif
 /* ---- janet_continue_no_check ---------------------------------------------------------------------------------------- */
 #define NO_CHECK_CONTRACT \
 WF_FIBER_REQUIRES(fiber) \
@@ -125,7 +133,7 @@ __CPROVER_requires(__CPROVER_is_fresh(out, sizeof(Janet))) \
 __CPROVER_requires(FIB_RESUMABLE(FIB_ST(fiber->flags))) \
 __CPROVER_requires(janet_vm.stackn >= 0 && janet_vm.stackn < JANET_RECURSION_GUARD) \
 __CPROVER_requires(g_ran == 0 && g_child_sig == -1) \
-__CPROVER_requires(g_st0 == (int) FIB_ST(fiber->flags) && g_in0 == JBITS(in) && g_tup_calls == 0) \
+NO_CHECK_GHOSTS \
 __CPROVER_requires(__CPROVER_pointer_equals(g_fiber, fiber)) \
 __CPROVER_assigns(*fiber, *out, FIB_VM, g_ran, g_child_ran, g_child_sig, g_child_val, g_child_last, g_tup_calls) \
 __CPROVER_assigns(fiber->child != (void *)0: *(fiber->child)) \
@@ -177,7 +185,7 @@ __CPROVER_requires(__CPROVER_is_fresh(out, sizeof(Janet))) \
 __CPROVER_requires(janet_vm.stackn >= 0) \
 __CPROVER_requires(g_ran == 0 && g_child_sig == -1) \
 __CPROVER_requires(__CPROVER_pointer_equals(g_fiber, fiber)) \
-__CPROVER_assigns(*fiber, *out, FIB_VM, g_ran, g_child_ran, g_child_sig, g_child_val, g_child_last) \
+__CPROVER_assigns(*fiber, *out, FIB_VM, g_ran, g_child_ran, g_child_sig, g_child_val, g_child_last, g_tup_calls) \
 __CPROVER_assigns(fiber->child != (void *)0: *(fiber->child)) \
 __CPROVER_assigns(fiber->data[fiber->frame]) \
 __CPROVER_ensures(IS_SIGNAL(__CPROVER_return_value)) \
